@@ -92,6 +92,7 @@ type CorrectableCallData struct {
 }
 
 type correctableCallState struct {
+	done            chan struct{} // closed when a server-stream call has ended
 	md              *ordering.Metadata
 	data            CorrectableCallData
 	replyChan       <-chan response
@@ -106,6 +107,10 @@ func (c RawConfiguration) CorrectableCall(ctx context.Context, d CorrectableCall
 	md := &ordering.Metadata{MessageID: c.getMsgID(), Method: d.Method}
 
 	replyChan := make(chan response, expectedReplies)
+	var done chan struct{}
+	if d.ServerStream {
+		done = make(chan struct{})
+	}
 	for _, n := range c {
 		msg := d.Message
 		if d.PerNodeArgFn != nil {
@@ -115,12 +120,13 @@ func (c RawConfiguration) CorrectableCall(ctx context.Context, d CorrectableCall
 				continue // don't send if no msg
 			}
 		}
-		n.channel.enqueue(request{ctx: ctx, msg: &Message{Metadata: md, Message: msg}}, replyChan, d.ServerStream)
+		n.channel.enqueue(request{ctx: ctx, msg: &Message{Metadata: md, Message: msg}, streamDone: done}, replyChan, d.ServerStream)
 	}
 
 	corr := &Correctable{level: LevelNotSet, donech: make(chan struct{}, 1)}
 
 	go c.handleCorrectableCall(ctx, corr, correctableCallState{
+		done:            done,
 		md:              md,
 		data:            d,
 		replyChan:       replyChan,
@@ -141,25 +147,13 @@ func (c RawConfiguration) handleCorrectableCall(ctx context.Context, corr *Corre
 	)
 
 	if state.data.ServerStream {
-		// The servers may keep streaming replies after this call has ended. A receiver
-		// goroutine that is handing over such a reply holds the router lock and blocks
-		// once the reply channel is full, so keep draining the channel until every
-		// router has been deleted; otherwise the node's receiver (and everybody who
-		// needs the router lock) would be stuck forever.
+		// The servers may keep streaming replies after this call has ended: tell the
+		// goroutines that hand over replies that nobody reads them any more, then
+		// delete the routers.
 		defer func() {
-			deleted := make(chan struct{})
-			go func() {
-				for _, n := range c {
-					n.channel.deleteRouter(state.md.MessageID)
-				}
-				close(deleted)
-			}()
-			for {
-				select {
-				case <-state.replyChan:
-				case <-deleted:
-					return
-				}
+			close(state.done)
+			for _, n := range c {
+				n.channel.deleteRouter(state.md.MessageID)
 			}
 		}()
 	}
